@@ -292,11 +292,13 @@ func tablesC01(c *Ctx) {
 	if lk := p.SSAFunc(p.Func("Lookup")); lk != nil {
 		lower := false
 		retIdent := false
+		// the key the table is read with, for a mixed-case argument
+		run := p.newSCCP().run(lk, []cval{cConst(constant.MakeString("SeLeCt"))}, 0)
 		for _, b := range lk.Blocks {
 			for _, in := range b.Instrs {
 				switch x := in.(type) {
 				case *ssa.Lookup:
-					if call, ok := x.Index.(*ssa.Call); ok && call.Call.StaticCallee() != nil && call.Call.StaticCallee().Name() == "ToLower" && call.Call.Args[0] == ssa.Value(lk.Params[0]) {
+					if k := run.get(x.Index); k.isPlain() && k.v.Kind() == constant.String && constant.StringVal(k.v) == "select" {
 						lower = true
 					}
 				case *ssa.Return:
